@@ -431,6 +431,7 @@ func checkC08(tier string) *Report {
 	}
 	nodes := x.RunOn(worlds)
 	x.Tour(len(worlds)) // every edge of the reachable graph once more, on instances that live through ONE linear history
+	c08Pagination(rep, worlds[0], tier == "thorough")
 	want := int64(32)
 	if tier == "thorough" {
 		want = 1024
@@ -440,4 +441,102 @@ func checkC08(tier string) *Report {
 	rep.Extra["fixpoint_reached"] = rep.Exhaustive
 	rep.Extra["nodes"] = len(nodes)
 	return rep
+}
+
+// c08Pagination: "the pause queries report exactly the current sets" for a client that pages. States: every subset of a
+// universe of identifiers some of which are prefixes of others ("1", "10", "100" — ordinary CCTP / Hyperlane domains),
+// each reached by one PauseCrossChains batch of the authority; in each state the listing is walked by next-key with
+// every page size up to the size of the set + 1, forwards and in reverse, and with offsets; every walk must visit each
+// paused identifier exactly once and terminate.
+func c08Pagination(rep *Report, w *World, full bool) {
+	universe := []string{"1", "10", "100", "2", "20"}
+	protos := []string{"PROTOCOL_CCTP"}
+	if full {
+		universe = append(universe, "3")
+		protos = append(protos, "PROTOCOL_HYPERLANE")
+	}
+	states := 0
+	for _, proto := range protos {
+		for mask := 1; mask < 1<<len(universe); mask++ {
+			var set []string
+			for i, id := range universe {
+				if mask&(1<<i) != 0 {
+					set = append(set, id)
+				}
+			}
+			ctx := Branch(w.Ctx)
+			op := w.OpPauseCC(proto, set...)
+			if r := w.Apply(ctx, op); !r.Succeeded() {
+				rep.HarnessError("pagination phase: %s refused on the initial state", op.Label)
+				return
+			}
+			states++
+			want := append([]string{}, set...)
+			sort.Strings(want)
+			related := false
+			for _, a := range set {
+				for _, b := range set {
+					if a != b && strings.HasPrefix(b, a) {
+						related = true
+					}
+				}
+			}
+			for _, reverse := range []bool{false, true} {
+				for lim := uint64(1); lim <= uint64(len(set))+1; lim++ {
+					var got []string
+					var key []byte
+					pages, terminated := 0, false
+					var qerr error
+					for pages = 0; pages < 2*len(set)+4; pages++ {
+						ids, pr, err := w.QPausedCrossChains(ctx, proto, &query.PageRequest{Key: key, Limit: lim, Reverse: reverse})
+						if err != nil {
+							qerr = err
+							break
+						}
+						got = append(got, ids...)
+						if pr == nil || len(pr.NextKey) == 0 {
+							terminated = true
+							break
+						}
+						key = pr.NextKey
+					}
+					rep.Count("queries", int64(pages+1))
+					rep.Count("evaluations", 1)
+					gs := append([]string{}, got...)
+					sort.Strings(gs)
+					if qerr != nil || !terminated || strings.Join(gs, ",") != strings.Join(want, ",") {
+						sig := fmt.Sprintf("paused-cross-chains walk %s set=%v limit=%d reverse=%v prefix-related-identifiers=%v", proto, set, lim, reverse, related)
+						rep.Violate(Violation{Kind: "paused-cc-walk-wrong", Group: fmt.Sprintf("reverse=%v prefix-related=%v", reverse, related), Sig: sig,
+							Replay: mustJSON(map[string]any{"ops": []Op{op}, "query": "PausedCrossChains", "protocol": proto, "limit": lim, "reverse": reverse}),
+							What: fmt.Sprintf("PausedCrossChains(%s) followed by next-key with limit=%d reverse=%v visited %v (terminated=%v err=%v); paused are %v", proto, lim, reverse, got, terminated, qerr, want)})
+					} else {
+						rep.Outcome("paused-cc-walk-exact")
+						rep.Distinct(fmt.Sprintf("walk:%s:%v:%d:%v", proto, set, lim, reverse))
+					}
+				}
+				// offsets (first page only: the SDK paginator does not combine offset with key)
+				for off := uint64(0); off <= uint64(len(set)); off++ {
+					ids, _, err := w.QPausedCrossChains(ctx, proto, &query.PageRequest{Offset: off, Limit: 1000, Reverse: reverse})
+					rep.Count("evaluations", 1)
+					exp := append([]string{}, want...)
+					if reverse {
+						for i, j := 0, len(exp)-1; i < j; i, j = i+1, j-1 {
+							exp[i], exp[j] = exp[j], exp[i]
+						}
+					}
+					exp = exp[off:]
+					gs := append([]string{}, ids...)
+					es := append([]string{}, exp...)
+					sort.Strings(gs)
+					sort.Strings(es)
+					if err != nil || len(ids) != len(exp) || (off == 0 && strings.Join(gs, ",") != strings.Join(es, ",")) {
+						rep.Violate(Violation{Kind: "paused-cc-offset-wrong", Sig: fmt.Sprintf("%s set=%v offset=%d reverse=%v", proto, set, off, reverse), Replay: mustJSON(map[string]any{"ops": []Op{op}, "offset": off, "reverse": reverse}),
+							What: fmt.Sprintf("PausedCrossChains(%s, offset=%d, reverse=%v) returned %v err=%v; paused are %v", proto, off, reverse, ids, err, want)})
+					}
+				}
+			}
+		}
+	}
+	rep.Extra["pagination_phase_states"] = states
+	rep.Guard(rep.Outcomes["paused-cc-walk-exact"] >= 100, "pagination phase vacuous: %v", rep.Outcomes)
 }
